@@ -344,6 +344,9 @@ func mwUsers() []mwUser {
 		{NameID: "heidi", Index: "si-heidi", IdPSessionMs: 10 * 3_600_000, Attrs: []AttrSpec{{Name: "role", Friendly: "role", Values: []string{"user"}}}},
 		{NameID: "grace", Index: "si-grace", Attrs: []AttrSpec{{Name: "groups", Values: []string{"zqg7aqz", "zqg7bqz"}}, {Name: "role", Friendly: "role", Values: []string{"user"}},
 			{Name: "groups", Values: []string{"zqg7cqz"}}, {Name: "role", Friendly: "role", Values: []string{"admin"}}}},
+		// principals and values that differ from others only in white space (and from the gate's value only in white space)
+		{NameID: "alice ", Index: "si-alice-sp", Attrs: []AttrSpec{{Name: "role", Friendly: "role", Values: []string{" admin", "user\u00a0"}}, {Name: "unit", Values: []string{"\u2003zqunit10qz\n"}}}},
+		{NameID: "\u00a0bob@example.com", Index: "si-bob-nbsp", Attrs: []AttrSpec{{Name: "role", Friendly: "role", Values: []string{"admin\t"}}}},
 	}
 }
 
